@@ -5,6 +5,7 @@ CONSTANTS
   BinOps = {"add", "mod"}
   UnOps = {"neg"}
   WithStubFacts = TRUE
+  Fixed = {}
   WithGetattr = FALSE
   BugNoReflected = FALSE
 INVARIANT DiagnosedIffRaises
